@@ -682,6 +682,21 @@ fn run_check_inner(cfg: &CheckCfg) -> CheckResult {
     let wall = t0.elapsed().as_secs_f64();
     let kc: BTreeMap<&str, u64> = crate::kernel::KOP_NAMES.iter().zip(kernel_calls.iter()).map(|(n, c)| (*n, *c)).collect();
     let unlisted = violation_lines.iter().filter(|l| l.starts_with("VIOLATION")).count();
+    // fault kinds that are not kernel return values: counted from the probes they leave
+    let mut faults = faults;
+    for (name, src) in [
+        ("crash@sync (kill image taken)", tot.get("crash_points").copied().unwrap_or(0)),
+        ("powerloss@sync (durable image checked)", probes.get("powerloss-image-checked").copied().unwrap_or(0)),
+        ("real process SIGKILLed at sync point", probes.get("kill-twin-compared").copied().unwrap_or(0)),
+        ("stored byte flipped", probes.get("byte-corrupted").copied().unwrap_or(0)),
+        ("file of another map swapped in", probes.get("file-swapped").copied().unwrap_or(0)),
+        ("run repeated with poisoned allocator / other process", probes.get("twice-compared").copied().unwrap_or(0)),
+        ("close + reopen in a fresh process (real kernel)", probes.get("reopen-in-fresh-process").copied().unwrap_or(0)),
+    ] {
+        if src > 0 {
+            faults.insert(name.to_string(), src);
+        }
+    }
     let evidence = json!({
         "property_id": cfg.prop,
         "tier": cfg.tier.name(),
